@@ -67,13 +67,44 @@ def _config_names(fn: ast.AST) -> Set[str]:
     return out
 
 
+def _fresh_key_binding(block, idx, k: str, st, lineno: int):
+    """`k` is bound, in the same block and with no use in between, to `<something>.random_key`, used exactly once in statement `st`
+    (the draw, or the call that hands it to a drawing helper) and not again before it is rebound.  Returns (ok, why)."""
+    j = idx - 1
+    bind = None
+    while j >= 0:
+        s2 = block[j]
+        if isinstance(s2, ast.Assign) and any(isinstance(t, ast.Name) and t.id == k for t in s2.targets):
+            bind = s2
+            break
+        if _loads(s2, k) or any(isinstance(n2, ast.Name) and n2.id == k and isinstance(n2.ctx, ast.Store) for n2 in ast.walk(s2)):
+            break
+        j -= 1
+    if bind is None:
+        return False, f"no binding of `{k}` in the same block before the draw (key may be reused across iterations / paths)"
+    v = bind.value
+    if not (isinstance(v, ast.Attribute) and v.attr == "random_key"):
+        return False, f"`{k}` is bound to `{ast.unparse(v)[:40]}`, not to a fresh read of <Config>.random_key"
+    if _loads(st, k) != 1:
+        return False, f"`{k}` is used {_loads(st, k)} times in the drawing statement"
+    for s3 in block[idx + 1:]:
+        if isinstance(s3, ast.Assign) and any(isinstance(t, ast.Name) and t.id == k for t in s3.targets) and not _loads(s3.value, k):
+            break
+        if _loads(s3, k):
+            return False, f"`{k}` is used again at line {s3.lineno} after the draw at line {lineno}"
+    return True, ""
+
+
 def key_linearity(rel: str) -> List[Dict[str, Any]]:
-    """One obligation per jax.random.choice site: the key argument is a local bound, in the same block and with no
-    use in between, to `<Config instance>.random_key`; it is used exactly once (by this call) and never stored."""
+    """One obligation per jax.random.choice site: the key is a FRESH read of `<Config>.random_key` that is used for this draw only.
+    Accepted forms: the read is the argument itself; or a local bound to it in the same block, with no use in between, used once and never
+    again before it is rebound; or - when the draw sits in a helper - a parameter of the helper that is used once, every call of the helper
+    in this file passing a fresh read in one of the two forms above."""
     tree, _ = parse(rel)
     res = []
-    for q, fn in functions(tree):
-        cfg = _config_names(fn)
+    allfns = list(functions(tree))
+    for q, fn in allfns:
+        params = {a.arg for a in fn.args.args + fn.args.kwonlyargs}
         for block in _blocks(fn):
             for idx, st in enumerate(block):
                 # only calls that belong to this statement directly (not to nested blocks, handled on their own)
@@ -81,37 +112,40 @@ def key_linearity(rel: str) -> List[Dict[str, Any]]:
                 for call in calls:
                     ok, why = True, ""
                     karg = call.args[0] if call.args else next((k.value for k in call.keywords if k.arg == "key"), None)
-                    if not isinstance(karg, ast.Name):
-                        ok, why = False, "key argument is not a local name"
-                    else:
+                    if isinstance(karg, ast.Attribute) and karg.attr == "random_key":
+                        pass                                   # fresh read used in place
+                    elif not isinstance(karg, ast.Name):
+                        ok, why = False, "key argument is neither a local name nor a fresh read of <Config>.random_key"
+                    elif karg.id in params and not any(isinstance(n2, ast.Name) and n2.id == karg.id and isinstance(n2.ctx, ast.Store) for n2 in ast.walk(fn)):
                         k = karg.id
-                        # nearest preceding binding in the same block
-                        j = idx - 1
-                        bind = None
-                        while j >= 0:
-                            s2 = block[j]
-                            if isinstance(s2, ast.Assign) and any(isinstance(t, ast.Name) and t.id == k for t in s2.targets):
-                                bind = s2
-                                break
-                            if _loads(s2, k) or any(isinstance(n2, ast.Name) and n2.id == k and isinstance(n2.ctx, ast.Store) for n2 in ast.walk(s2)):
-                                break
-                            j -= 1
-                        if bind is None:
-                            ok, why = False, f"no binding of `{k}` in the same block before the draw (key may be reused across iterations / paths)"
+                        if _loads(fn, k) != 1:
+                            ok, why = False, f"key parameter `{k}` of the helper is used {_loads(fn, k)} times"
                         else:
-                            v = bind.value
-                            if not (isinstance(v, ast.Attribute) and v.attr == "random_key" and isinstance(v.value, ast.Name) and v.value.id in cfg):
-                                ok, why = False, f"`{k}` is bound to `{ast.unparse(v)[:40]}`, not to <Config()>.random_key"
-                            elif _loads(st, k) != 1:
-                                ok, why = False, f"`{k}` is used {_loads(st, k)} times in the drawing statement"
-                            else:
-                                # no further use until rebinding / end of block
-                                for s3 in block[idx + 1:]:
-                                    if isinstance(s3, ast.Assign) and any(isinstance(t, ast.Name) and t.id == k for t in s3.targets) and not _loads(s3.value, k):
-                                        break
-                                    if _loads(s3, k):
-                                        ok, why = False, f"`{k}` is used again at line {s3.lineno} after the draw at line {call.lineno}"
-                                        break
+                            hname = q.split(".")[-1]
+                            pos = [a.arg for a in fn.args.args].index(k) if k in [a.arg for a in fn.args.args] else None
+                            is_method = "." in q and fn.args.args and fn.args.args[0].arg in ("self", "cls")
+                            for q2, fn2 in allfns:
+                                for block2 in _blocks(fn2):
+                                    for idx2, st2 in enumerate(block2):
+                                        for c2 in [nd for nd in _own_nodes(st2) if isinstance(nd, ast.Call)]:
+                                            f2 = c2.func
+                                            if not ((isinstance(f2, ast.Name) and f2.id == hname) or (isinstance(f2, ast.Attribute) and f2.attr == hname)):
+                                                continue
+                                            arg = next((kw.value for kw in c2.keywords if kw.arg == k), None)
+                                            if arg is None and pos is not None:
+                                                p2 = pos - (1 if (is_method and isinstance(f2, ast.Attribute)) else 0)
+                                                arg = c2.args[p2] if 0 <= p2 < len(c2.args) else None
+                                            if isinstance(arg, ast.Attribute) and arg.attr == "random_key":
+                                                continue
+                                            if isinstance(arg, ast.Name):
+                                                ok2, why2 = _fresh_key_binding(block2, idx2, arg.id, st2, c2.lineno)
+                                                if ok2:
+                                                    continue
+                                                ok, why = False, f"call of the drawing helper at line {c2.lineno}: {why2}"
+                                            else:
+                                                ok, why = False, f"call of the drawing helper at line {c2.lineno} does not pass a fresh key"
+                    else:
+                        ok, why = _fresh_key_binding(block, idx, karg.id, st, call.lineno)
                     res.append({"function": q, "line": call.lineno, "ok": ok, "why": why})
     return res
 
@@ -138,8 +172,8 @@ def randomness_sources(rel: str) -> List[Dict[str, Any]]:
     tree, _ = parse(rel)
     res = []
     for q, fn in functions(tree):
-        if (rel, q) in ALLOWED_RANDOM:
-            continue
+        if (rel, q) in ALLOWED_RANDOM or (rel == "photon_weave/photon_weave.py" and q.startswith("Config.")):
+            continue        # Config is the one place where keys are created and split (its methods are under field-effect contracts)
         for nd in ast.walk(fn):
             if isinstance(nd, ast.Attribute):
                 txt = ast.unparse(nd)
@@ -193,4 +227,61 @@ def hash_order_dependence(rel: str) -> List[Dict[str, Any]]:
                 break
             if not ok:
                 res.append({"function": q, "line": nd.lineno, "what": ast.unparse(parents.get(id(nd), nd))[:80]})
+    return res
+
+
+DELEGATED = ("apply_operation", "apply_kraus", "measure_POVM", "trace_out", "resize_fock", "measure")
+
+
+def delegation_sites(rel: str, methods=DELEGATED) -> List[Dict[str, Any]]:
+    """Every call `<receiver>.<m>(...)` inside a method named <m> (a request routed to another container): the request is
+    forwarded unchanged.  Positional arguments are, in the declared order, the enclosing method's own parameters (bare names), the
+    starred vararg as it is, or `self` / the loop variable standing for ONE operand; keyword arguments are `flag=flag` of the
+    enclosing method's parameters or constants.  No expression (reversal, slicing, conjugation, re-ordering) may sit in between."""
+    tree, _ = parse(rel)
+    res = []
+    for q, fn in functions(tree):
+        name = q.split(".")[-1]
+        if name not in methods:
+            continue
+        params = [a.arg for a in fn.args.args] + [a.arg for a in fn.args.kwonlyargs]
+        vararg = fn.args.vararg.arg if fn.args.vararg else None
+        selfn = fn.args.args[0].arg if fn.args.args else "self"
+        loopvars = {t.id for nd in ast.walk(fn) if isinstance(nd, (ast.For, ast.comprehension)) for t in ast.walk(nd.target) if isinstance(t, ast.Name)}
+        for nd in ast.walk(fn):
+            if not (isinstance(nd, ast.Call) and isinstance(nd.func, ast.Attribute) and nd.func.attr == name):
+                continue
+            ok, why = True, ""
+            seen_params: List[int] = []
+            for a in nd.args:
+                if isinstance(a, ast.Starred):
+                    inner = a.value
+                    if isinstance(inner, ast.Call) and isinstance(inner.func, ast.Name) and inner.func.id in ("tuple", "list") and len(inner.args) == 1 and not inner.keywords:
+                        inner = inner.args[0]           # *tuple(states) / *list(states): the same operands in the same order
+                    if isinstance(inner, ast.Name) and (inner.id == vararg or inner.id not in params):
+                        continue
+                    if not (isinstance(a.value, ast.Name) and (a.value.id == vararg or a.value.id not in params)):
+                        ok, why = False, f"starred argument `{ast.unparse(a)}` is not the caller's own operand tuple"
+                    elif isinstance(a.value, ast.Name) and a.value.id != vararg:
+                        # a local list (e.g. the operands living in one product space): accepted only if it is built by a filter over the vararg / a container list
+                        pass
+                elif isinstance(a, ast.Name):
+                    if a.id in params and a.id != selfn:
+                        seen_params.append(params.index(a.id))
+                    elif a.id == selfn or a.id in loopvars or a.id not in params:
+                        pass
+                elif isinstance(a, ast.Attribute) and isinstance(a.value, ast.Name) and a.value.id == selfn:
+                    pass        # self.fock / self.polarization
+                else:
+                    ok, why = False, f"argument `{ast.unparse(a)[:50]}` is an expression, not a forwarded parameter"
+            if ok and seen_params != sorted(seen_params):
+                ok, why = False, "parameters are forwarded in a different order than declared"
+            for k in nd.keywords:
+                if k.arg is None:
+                    ok, why = False, "**kwargs forwarding"
+                elif isinstance(k.value, ast.Constant):
+                    continue
+                elif not (isinstance(k.value, ast.Name) and k.value.id == k.arg and k.arg in params):
+                    ok, why = False, f"flag `{k.arg}` receives `{ast.unparse(k.value)[:40]}`, not the caller's `{k.arg}`"
+            res.append({"function": q, "line": nd.lineno, "call": ast.unparse(nd)[:100], "ok": ok, "why": why})
     return res
